@@ -220,7 +220,8 @@ def r2(ctx):
     ctx.emit('C13-R2', ok, MOLECULE, upd[0].ast if upd else il, 'an N call never reaches the vote update, every other call does' if ok else 'an N call can reach the vote update (or a called base does not)', key='N-excluded')
     if upd:
         a = upd[0].ast
-        ok = isinstance(a.op, ast.Add) and src(a.value) == '1' and src(a.target).replace('"', "'") == "consensii[position]['ACGTN'.index(q_base)]"
+        posv = il.target.elts[0].id if isinstance(il.target, ast.Tuple) and isinstance(il.target.elts[0], ast.Name) else 'position'
+        ok = isinstance(a.op, ast.Add) and src(a.value) == '1' and src(a.target).replace('"', "'") == f"consensii[{posv}]['ACGTN'.index({qb})]"
         ctx.emit('C13-R2', ok, MOLECULE, a, f'vote update `{src(a)}`' + (' adds exactly 1 to the counter of the called base' if ok else ' is not a unit increment of the called base'), key='unit-increment',
                  what='get_consensus: a fragment does not contribute exactly one vote')
     reads = [n for n in walk_no_nested(fl) if isinstance(n, ast.Name) and n.id == 'consensii' and isinstance(n.ctx, ast.Load) and not any(n is x for u in upd for x in ast.walk(u.ast))]
